@@ -70,6 +70,9 @@ class Contract:
             elif k == 'must_fail':
                 self.must_fail.append(c.args[0])
             elif k == 'raises':
+                if len(c.args) != 1:
+                    raise SyntaxError('%s:%d: raises(Exc, when=cond)' % (
+                        fname, s.lineno))
                 self.raises.append((c.args[0].id, kw.get('when')))
                 self.clause_prop[('raises', c.args[0].id)] = props
             elif k == 'modifies':
